@@ -1,7 +1,7 @@
 """C13 — with escape analysis on, concurrency cannot hide a flow silently (engines P + S).
-Subjects: 11 sharing mechanisms (pointer passed to go, global, global object, channel of values, channel of pointers,
+Subjects: 19 sharing mechanisms (pointer passed to go, global, global object, channel of values, channel of pointers,
 shared map, shared slice, interface holding a pointer, nested object, closure stored in a shared struct, pointer to a
-local) x 5 writer/reader placements x {no sync, join through a channel, mutex} x {passed as argument, captured}.
+local) x 6 writer/reader placements x {no sync, join through a channel, mutex} x {passed as argument, captured}.
 One description, two renderings: the plain Go program is analysed (use-escape-analysis: true); the shim rendering runs
 under the controlled scheduler where go statements, channel/mutex operations and every shared access are scheduling
 points, and ALL interleavings up to the preemption bound are executed. Oracle: a (source, sink) pair observed in some
